@@ -43,6 +43,10 @@ def tasks(tier):
     ts.append(("reload uniform", "run_uniform", {}))
     ts.append(("negative volume warning", "run_warning", {}))
     ts.append(("cached arrays", "run_cache", {}))
+    # the region templates take their quadrature from a default argument: one scheme object is shared by every region of that template in a
+    # process, so a scheme that is altered by a query (inv(), plot()) corrupts every region built afterwards
+    ts.append(("shared default schemes", "run_included", dict(modname="c05", fname="run_purity", kwargs={}, oid="C06.O8",
+                                                            why="regions built from a template share its default scheme object; the scheme must not be altered by inv() / plot()")))
     ts.append(("fields", "run_fields", {}))
     ts.append(("templates", "run_templates", dict(tier=tier)))
     return ts
@@ -454,3 +458,8 @@ def run_templates(col, tier):
         else:
             col.add("C06.O5", name, "default quadrature integrates products of the template element's gradients exactly on affine cells; dimensions agree", okk and dim_ok, detail)
     finish_info(col, it)
+
+def run_included(col, modname, fname, kwargs, oid, why, select_oid=None):
+    from ..common import include
+
+    include(col, modname, fname, kwargs, oid, why, select_oid=select_oid)
